@@ -84,6 +84,29 @@ Theorem unread_body :
     if total =? declared then Open [] else if total <? declared then Closed else Unmodelled.
 Proof. exact after_body_spec. Qed.
 
+(** The ways the loop ends a connection: once closed nothing more is written; an unknown Host gets a
+    well-formed 409 and the connection is closed; a request beyond the limiter's drop level closes it unanswered. *)
+Theorem closed_is_silent :
+  forall (Q A : Type) (q_method : Q -> N) (q_content_length : Q -> option bytes) (q_known_host : Q -> bool)
+         (q_head : Q -> bytes) (app : A -> Q -> A * reply0 * option N) (error_body : N -> option bytes -> bytes)
+         (package : Q -> head -> head) (too_many_body : bytes) (drain head_rule : bool) (hs : list (hreq Q)) (a : A),
+  conn_run Q A q_method q_content_length q_known_host q_head app error_body package too_many_body drain head_rule a Closed hs
+  = (map (fun _ => None) hs, Closed).
+Proof. exact closed_is_silent_lemma. Qed.
+
+Theorem closing_requests :
+  forall (Q A : Type) (q_method : Q -> N) (q_content_length : Q -> option bytes) (q_known_host : Q -> bool)
+         (q_head : Q -> bytes) (app : A -> Q -> A * reply0 * option N) (error_body : N -> option bytes -> bytes)
+         (package : Q -> head -> head) (too_many_body : bytes) (drain head_rule : bool) (h : hreq Q) (a : A),
+  (q_known_host (h_q h) = false ->
+   conn_step Q A q_method q_content_length q_known_host q_head app error_body package too_many_body drain true a [] h
+   = (a, Some (no_host error_body true (q_method (h_q h))), Closed) /\
+   framed (q_method (h_q h)) (no_host error_body true (q_method (h_q h)))) /\
+  (q_known_host (h_q h) = true -> h_action h = ADrop ->
+   conn_step Q A q_method q_content_length q_known_host q_head app error_body package too_many_body drain head_rule a [] h
+   = (a, None, Closed)).
+Proof. exact closing_requests_lemma. Qed.
+
 (** The code before the repair (kvarn 0.6.3): POST /f.txt with content-length 10 whose body arrives after the
     head is answered 405 at once; the ten bytes are then read as the next request line and the connection is
     closed without answering the GET.  Replayed on the real code (corpus of the correspondence run). *)
